@@ -407,14 +407,49 @@ func (c *Ctx) c04Termination(rule string) {
 		R.Check(rerr != nil && anyDominates(nilEdges(rerr, true), ci.Block()), rule, "consumeSingleCommand:no-dispatch-after-failed-read", c.at(ci), "a command is dispatched only after its message was read successfully", "handleCommand is dominated by the err == nil edge of ReadTypedMsg", "handleCommand is reachable although reading the message failed")
 	}
 	// the generic failure edge returns the read error itself
+	// (every return on the failure edge hands on the read error itself, or the outcome of the size-exceeded recovery
+	// that was given that error; at least one returns it unchanged)
 	okRet := false
 	if rerr != nil {
-		for _, e := range nilEdges(rerr, false) {
-			blk := e.to()
-			if r, ok := blk.Instrs[len(blk.Instrs)-1].(*ssa.Return); ok && errOperand(r) == rerr {
-				okRet = true
+		fes := nilEdges(rerr, false)
+		var recovered []edge
+		for _, other := range core.Calls(csc) {
+			oc, isCall := other.(*ssa.Call)
+			if !isCall || len(oc.Call.Args) == 0 || !c.sameErr(oc.Call.Args[0], rerr) {
+				continue
+			}
+			if f := core.StaticCallee(oc); f != nil && (core.FuncIs(f, "errors", "Is") || core.FuncIs(f, "errors", "As")) {
+				recovered = append(recovered, boolEdges(oc, true)...)
 			}
 		}
+		allOK := true
+		for _, r := range returns(csc) {
+			if !anyDominates(fes, r.Block()) {
+				continue
+			}
+			ev := errOperand(r)
+			switch {
+			case ev == rerr:
+				okRet = true
+			case anyDominates(recovered, r.Block()):
+				// the recovery path: its own result (nil when the oversized message was skipped and answered)
+			default:
+				takes := false
+				for _, root := range core.ErrRoots(ev) {
+					if call, isCall := root.(*ssa.Call); isCall {
+						for _, a := range call.Call.Args {
+							if c.sameErr(a, rerr) {
+								takes = true
+							}
+						}
+					}
+				}
+				if !takes {
+					allOK = false
+				}
+			}
+		}
+		okRet = okRet && allOK
 	}
 	R.Check(okRet, rule, "consumeSingleCommand:read-error-ends-connection", c.at(rcall), "when reading fails (EOF, transport error, malformed frame) the error is returned unchanged so that the connection's goroutine ends", "the err != nil edge returns that error", "no edge returns the read error unchanged: a broken connection could be retried forever")
 	// consumeCommands returns on it; serve closes
